@@ -61,12 +61,19 @@ func writeSession(w *lz4.Writer, data []byte, chunk int, flush int) error {
 		chunk = len(data)
 	}
 	k := 0
+	// the caller owns its buffer again as soon as Write returns: it is refilled at once
+	scratch := make([]byte, chunk)
 	for pos := 0; pos < len(data); pos += chunk {
 		end := pos + chunk
 		if end > len(data) {
 			end = len(data)
 		}
-		if _, err := w.Write(data[pos:end]); err != nil {
+		nb := copy(scratch, data[pos:end])
+		_, err := w.Write(scratch[:nb])
+		for i := 0; i < nb; i++ {
+			scratch[i] = 0xEE
+		}
+		if err != nil {
 			w.Close() // the caller closes a failed Writer too: Close must release the pipeline
 			return err
 		}
